@@ -384,6 +384,46 @@ def apply_global_prms(gprms):
     rec(dynamic.AMPYCLOUD_PRMS, gprms)
 
 
+def apply_yaml_prms(prms):
+    """ the documented YAML route: write a parameter file and load it with set_prms """
+    import tempfile
+    import ampycloud
+    from ruamel.yaml import YAML
+    fd, pth = tempfile.mkstemp(suffix='.yml', prefix='verif_prms_')
+    os.close(fd)
+    try:
+        with open(pth, 'w') as f:
+            YAML(typ='safe').dump(prms, f)
+        with warnings.catch_warnings():
+            warnings.simplefilter('ignore')
+            ampycloud.set_prms(pth)
+    finally:
+        os.unlink(pth)
+
+
+class Poison:
+    """ a value that breaks or changes any computation that reads it """
+
+    def _boom(self, *a, **k):
+        raise RuntimeError('the global parameter dictionary was read after the construction of the chunk')
+    __lt__ = __le__ = __gt__ = __ge__ = __add__ = __radd__ = __sub__ = __rsub__ = __mul__ = __rmul__ = _boom
+    __truediv__ = __rtruediv__ = __float__ = __int__ = __index__ = __iter__ = __len__ = __getitem__ = __bool__ = _boom
+    __eq__ = __ne__ = _boom
+    __hash__ = None
+
+
+def poison_global():
+    from ampycloud import dynamic
+
+    def rec(d):
+        for k in list(d.keys()):
+            if isinstance(d[k], dict):
+                rec(d[k])
+            else:
+                d[k] = Poison()
+    rec(dynamic.AMPYCLOUD_PRMS)
+
+
 class Recorder:
     """ Drives one chunk through a sequence of operations, recording one event per call. """
 
@@ -434,6 +474,8 @@ class Recorder:
                     self.chunk = CeiloChunk(self.frame, prms=self.desc.get('prms') or None)
                     self.trace['prm'] = project_prms(self.chunk.prms)
                 elif op in ('find_slices', 'find_groups', 'find_layers'):
+                    if self.desc.get('poison'):
+                        poison_global()
                     getattr(self.chunk, op)()
                 elif op == 'metarize':
                     self.chunk.metarize(which=arg)
@@ -504,6 +546,8 @@ def run_scenario(desc):
     try:
         if desc.get('gprms'):
             apply_global_prms(desc['gprms'])
+        if desc.get('yprms'):
+            apply_yaml_prms(desc['yprms'])
         rec = Recorder(desc)
         ops = desc.get('ops') or CANON
         for op in ops:
